@@ -5,7 +5,7 @@ import scen_common
 PID = "C10"
 PROP_V = ["Props/Properties_C10.v"]
 GEN_MODULES = ["Consts", "Sites"]
-FLOW_FILES = ['counter.c']
+FLOW_FILES = ['counter.c', 'wait.c']
 REPLAY_HINT = "VRT_SEED=<seed> _work/h/counter_mix"
 PARTIAL = ["'through nsync_wait_n': CounterModel inlines the waitable path for count = 1, mu = NULL; the composition of the real counter steps with wait.c's loop is covered by WaitNModel (abstract counter) + waitn_mix, not by one composed model",
            'runs that race the `waited` ASSERT (an increment from zero concurrent with the first wait: C10_assert_race) are excluded by `broken w = false` -- a client-contract hypothesis (all increments precede all waits), recorded in DESIGN 9.2',
